@@ -1053,6 +1053,10 @@ func (gs *GossipSubRouter) handleIWant(p peer.ID, ctl *pb.ControlMessage) []*pb.
 				continue
 			}
 
+			if gs.fromBlacklisted(msg) {
+				continue
+			}
+
 			if count > gs.params.GossipRetransmission {
 				gs.logger.Debug("IWANT: Peer has asked for message too many times; ignoring request", "peer", p, "messageID", mid)
 				continue
@@ -2082,8 +2086,25 @@ func (gs *GossipSubRouter) sendGraftPrune(tograft, toprune map[peer.ID][]string,
 
 // emitGossip emits IHAVE gossip advertising items in the message cache window
 // of this topic.
+// fromBlacklisted reports whether a cached message came from, or names as author, a peer that
+// is in the blacklist now (it was not when the message was accepted).
+func (gs *GossipSubRouter) fromBlacklisted(msg *Message) bool {
+	return gs.p.blacklist.Contains(msg.ReceivedFrom) || gs.p.blacklist.Contains(msg.GetFrom())
+}
+
 func (gs *GossipSubRouter) emitGossip(topic string, exclude map[peer.ID]struct{}) {
 	mids := gs.mcache.GetGossipIDs(topic)
+
+	// messages of a peer that has been blacklisted since they were cached are no longer
+	// forwarded on request (handleIWant), so they are not advertised either
+	kept := mids[:0]
+	for _, mid := range mids {
+		if msg, ok := gs.mcache.Get(mid); ok && gs.fromBlacklisted(msg) {
+			continue
+		}
+		kept = append(kept, mid)
+	}
+	mids = kept
 
 	// Send gossip to GossipFactor peers above threshold, with a minimum of D_lazy.
 	// First we collect the peers above gossipThreshold that are not in the exclude set
